@@ -23,7 +23,8 @@ func init() {
 			"operand is embedded, never returned (ignore always propagates); R6.4 the partial evaluator's switch is exhaustive and for every kind uses the interpreter's constructor over " +
 			"literal operands in order and rebuilds the same kind (documented exceptions: the ignore-aware `has`, and the dedicated && || if functions); the helper builds a literal only " +
 			"from a successful evaluation that is neither unknown nor ignore; R6.5 scope resolution returns not-evaluated for an unknown and true for an ignored part before any comparison, and " +
-			"each scope kind is computed with the matching operator. Not decided: residual ≡ original under all completions.",
+			"each scope kind is computed with the matching operator; R6.6 a residual condition keeps its kind (when/unless); R6.7 the recognisers of the reserved marker types answer from the value's kind and " +
+			"the reserved type only — never from a member the marker constructor takes from its caller (an unknown named \"\" is still an unknown). Not decided: residual ≡ original under all completions.",
 		Run: runC06,
 	})
 }
@@ -31,6 +32,7 @@ func init() {
 func runC06(p *Prog, r *Report) {
 	c6DropSites(p, r)
 	c6MarkerCoverage(p, r)
+	c6MarkerRecognisers(p, r)
 	c6ShortCircuit(p, r)
 	c6ConditionKind(p, r)
 	c6Table(p, r)
@@ -796,6 +798,8 @@ func c6Table(p *Prog, r *Report) {
 				posOK = false
 			}
 		}
+		r.Check(len(fc.rebuiltOther) == 0, rule, q+":rebuild-every-return", pos, "every return of the rebuild closure is a "+kind+" literal",
+			"the rebuild closure of "+kind+" can also return "+strings.Join(fc.rebuiltOther, " / ")+": on that path the residual is not the original operator over the partially evaluated children")
 		r.Check(rebuildOK && posOK, rule, q+":rebuild", pos, "rebuilds "+fc.rebuilt+" with children in place", "a residual "+kind+" is rebuilt as "+fc.rebuilt+" with children "+describePos(fc.rebuiltPos)+" for inputs ("+strings.Join(fc.inputs, ",")+")")
 		want := nonNodeFields(nk)
 		var missing []string
@@ -1218,4 +1222,279 @@ func wholeClause(v ssa.Value) bool {
 		return false
 	}
 	return walk(v, 0)
+}
+
+// R6.7 — a marker recogniser accepts everything the marker constructor makes.
+// The constructors (`Variable(name)`, `Ignore()`) build an entity UID whose type is a reserved
+// constant; the identifier is the caller's (any string, the empty one included). A recogniser
+// (a predicate over a value / entity UID whose answer depends on a comparison with one of those
+// constants) may therefore condition its positive answer only on what the constructor fixes: the
+// dynamic kind of the value and the reserved type. A positive answer that also depends on a member
+// the constructor takes from its caller makes some markers invisible — the partial evaluator then
+// treats them as concrete entities.
+func c6MarkerRecognisers(p *Prog, r *Report) {
+	const rule = "R6.7-marker-recognisers"
+	sp := p.SSAPkg[pEval]
+	if sp == nil {
+		r.Anchor(rule, "package internal/eval")
+		return
+	}
+	// constructors: functions that call types.NewEntityUID (or build the literal) with a constant type
+	type ctorInfo struct {
+		fn     *ssa.Function
+		idFree bool // the identifier comes from a parameter
+	}
+	ctors := map[string]*ctorInfo{} // reserved type constant -> constructor
+	var fns []*ssa.Function
+	for _, m := range sp.Members {
+		if f, ok := m.(*ssa.Function); ok && f.Blocks != nil {
+			fns = append(fns, f)
+		}
+	}
+	sort.Slice(fns, func(i, j int) bool { return fns[i].Name() < fns[j].Name() })
+	for _, f := range fns {
+		forEachInstr(f, func(in ssa.Instruction) {
+			c, ok := in.(*ssa.Call)
+			if !ok {
+				return
+			}
+			cal := c.Call.StaticCallee()
+			if cal == nil || cal.Name() != "NewEntityUID" || fnPkgPath(cal) != pTypes || len(c.Call.Args) != 2 {
+				return
+			}
+			ts, ok := constString(stripConv(c.Call.Args[0]))
+			if !ok || !strings.HasPrefix(ts, "__cedar::") {
+				return
+			}
+			_, idConst := constString(stripConv(c.Call.Args[1]))
+			ctors[ts] = &ctorInfo{fn: f, idFree: !idConst}
+		})
+	}
+	if len(ctors) < 2 {
+		r.Anchor(rule, "marker constructors (functions building an entity UID of a reserved `__cedar::` type); found "+itoa(len(ctors)))
+		return
+	}
+	// recognisers: functions with a boolean last result that compare an entity UID's type with a reserved constant
+	n := 0
+	recog := map[*ssa.Function][]string{}
+	// direct comparers first, so that delegating predicates find them
+	sort.SliceStable(fns, func(i, j int) bool { return comparesReserved(fns[i]) && !comparesReserved(fns[j]) })
+	for _, f := range fns {
+		res := f.Signature.Results()
+		if res.Len() == 0 || !isBoolType(res.At(res.Len()-1).Type()) {
+			continue
+		}
+		var reserved []string
+		forEachInstr(f, func(in ssa.Instruction) {
+			if b, ok := in.(*ssa.BinOp); ok && (b.Op == token.EQL || b.Op == token.NEQ) {
+				for _, o := range []ssa.Value{b.X, b.Y} {
+					if s, ok := constString(stripConv(o)); ok && ctors[s] != nil {
+						reserved = append(reserved, s)
+					}
+				}
+			}
+		})
+		if len(reserved) == 0 && f.Signature.Params().Len() == 1 {
+			// a predicate that hands the question on to a recogniser is one too
+			forEachInstr(f, func(in ssa.Instruction) {
+				if c, ok := in.(*ssa.Call); ok {
+					if cal := c.Call.StaticCallee(); cal != nil && recog[cal] != nil {
+						reserved = append(reserved, recog[cal]...)
+					}
+				}
+			})
+		}
+		if len(reserved) == 0 || f.Signature.Params().Len() != 1 {
+			continue
+		}
+		recog[f] = reserved
+		q := fnQual(f)
+		n++
+		bad := ""
+		undec := ""
+		// every block from which a non-false answer is returned
+		for _, b := range f.Blocks {
+			ret, ok := lastInstr(b).(*ssa.Return)
+			if !ok {
+				continue
+			}
+			ans := ret.Results[len(ret.Results)-1]
+			var accept []*ssa.BasicBlock
+			switch a := ans.(type) {
+			case *ssa.Const:
+				if v, _ := constBool(a); v {
+					accept = append(accept, b)
+				}
+			case *ssa.Phi:
+				for i, e := range a.Edges {
+					if v, isC := constBool(e); isC && !v {
+						continue
+					}
+					accept = append(accept, a.Block().Preds[i])
+				}
+			default:
+				accept = append(accept, b)
+			}
+			for _, ab := range accept {
+				for _, g := range guardsAt(ab) {
+					g = flattenGuard(g)
+					fields := entityFieldsRead(g.Cond, map[ssa.Value]bool{})
+					for _, fld := range fields {
+						if fld == "Type" {
+							continue
+						}
+						for _, s := range reserved {
+							if ctors[s].idFree || fld != "ID" {
+								bad = "its positive answer also depends on member " + fld + " of the entity UID (condition at " + p.pos(condPos(g)) + "), which " + fnQual(ctors[s].fn) + " takes from its caller"
+							}
+						}
+					}
+					if fields == nil {
+						undec = "condition at " + p.pos(condPos(g)) + " is not a test of the value's kind or of a member of the entity UID"
+					}
+				}
+			}
+		}
+		switch {
+		case bad != "":
+			r.Viol(rule, q, p.pos(f.Pos()), "the recogniser of a reserved marker type is narrower than the constructor: "+bad+"; markers it does not recognise are treated as concrete entities by the partial evaluator")
+		case undec != "":
+			r.Undec(rule, q, p.pos(f.Pos()), undec)
+		default:
+			r.OK(rule, q, p.pos(f.Pos()), "answers from the value's kind and the reserved type ("+strings.Join(dedupStrings(reserved), ",")+") only")
+		}
+	}
+	if n < 3 {
+		r.Anchor(rule, "marker recognisers (boolean functions comparing an entity type with a reserved constant); found "+itoa(n))
+	}
+}
+
+func isBoolType(t types.Type) bool {
+	b, ok := t.Underlying().(*types.Basic)
+	return ok && b.Kind() == types.Bool
+}
+
+func dedupStrings(in []string) []string {
+	seen := map[string]bool{}
+	var out []string
+	for _, s := range in {
+		if !seen[s] {
+			seen[s] = true
+			out = append(out, s)
+		}
+	}
+	sort.Strings(out)
+	return out
+}
+
+// entityFieldsRead: the members of a types.EntityUID a condition reads (through comparisons,
+// conversions, calls of pure helpers on the member); a comma-ok type assertion or the answer of
+// another function reads none (empty, non-nil slice). nil = the condition is of no recognised form.
+func entityFieldsRead(v ssa.Value, seen map[ssa.Value]bool) []string {
+	if seen[v] {
+		return []string{}
+	}
+	seen[v] = true
+	isUID := func(t types.Type) bool {
+		if pt, ok := t.Underlying().(*types.Pointer); ok {
+			t = pt.Elem()
+		}
+		return typeIs(t, pTypes, "EntityUID")
+	}
+	switch x := v.(type) {
+	case *ssa.Const:
+		return []string{}
+	case *ssa.Extract:
+		if _, ok := x.Tuple.(*ssa.TypeAssert); ok {
+			return []string{}
+		}
+		if _, ok := x.Tuple.(*ssa.Call); ok {
+			return []string{} // delegated answer: the callee is a recogniser of its own
+		}
+		return nil
+	case *ssa.Call:
+		// a call on a member (len(ent.ID), strings.HasPrefix(string(ent.ID), ..)) reads that member
+		out := []string{}
+		for _, a := range x.Call.Args {
+			sub := entityFieldsRead(a, seen)
+			if sub == nil {
+				return nil
+			}
+			out = append(out, sub...)
+		}
+		if x.Call.IsInvoke() {
+			return nil
+		}
+		return out
+	case *ssa.Field:
+		if isUID(x.X.Type()) {
+			return []string{x.X.Type().Underlying().(*types.Struct).Field(x.Field).Name()}
+		}
+		return entityFieldsRead(x.X, seen)
+	case *ssa.UnOp:
+		if x.Op == token.MUL {
+			if fa, ok := x.X.(*ssa.FieldAddr); ok {
+				if isUID(fa.X.Type()) {
+					st := fa.X.Type().Underlying().(*types.Pointer).Elem().Underlying().(*types.Struct)
+					return []string{st.Field(fa.Field).Name()}
+				}
+			}
+			return nil
+		}
+		return entityFieldsRead(x.X, seen)
+	case *ssa.BinOp:
+		a, b := entityFieldsRead(x.X, seen), entityFieldsRead(x.Y, seen)
+		if a == nil || b == nil {
+			return nil
+		}
+		return append(a, b...)
+	case *ssa.Convert:
+		return entityFieldsRead(x.X, seen)
+	case *ssa.ChangeType:
+		return entityFieldsRead(x.X, seen)
+	case *ssa.Slice:
+		return entityFieldsRead(x.X, seen)
+	case *ssa.Phi:
+		out := []string{}
+		for _, e := range x.Edges {
+			sub := entityFieldsRead(e, seen)
+			if sub == nil {
+				return nil
+			}
+			out = append(out, sub...)
+		}
+		return out
+	}
+	return nil
+}
+
+func comparesReserved(f *ssa.Function) bool {
+	found := false
+	forEachInstr(f, func(in ssa.Instruction) {
+		if b, ok := in.(*ssa.BinOp); ok && (b.Op == token.EQL || b.Op == token.NEQ) {
+			for _, o := range []ssa.Value{b.X, b.Y} {
+				if s, ok := constString(stripConv(o)); ok && strings.HasPrefix(s, "__cedar::") {
+					found = true
+				}
+			}
+		}
+	})
+	return found
+}
+
+func condPos(g Guard) token.Pos {
+	if g.Cond != nil && g.Cond.Pos().IsValid() {
+		return g.Cond.Pos()
+	}
+	if in, ok := g.Cond.(ssa.Instruction); ok && in.Block() != nil {
+		for _, i := range in.Block().Instrs {
+			if i.Pos().IsValid() {
+				return i.Pos()
+			}
+		}
+	}
+	if g.If != nil {
+		return g.If.Pos()
+	}
+	return token.NoPos
 }
